@@ -142,7 +142,7 @@ strictly ascending, a branch has at least one child, and child `i` is well-forme
 `[if i = 0 then lo else kᵢ, kᵢ₊₁ or hi)`.  The leftmost child may hold keys *below* its own branch key:
 that slack is exactly what the "slot before" search relies on.  Every non-first branch key lies inside
 the bounds of the forest it occurs in (without this an empty child under an inverted interval would be
-vacuously well-formed: found by the proof attempt, see Proofs/TreeCounterexample.lean).  Leaves may be empty (a transaction can
+vacuously well-formed: found by the proof attempt: an empty child under an inverted interval).  Leaves may be empty (a transaction can
 empty a leaf; it stays in the tree until commit). -/
 
 def inLo (lo : Option K) (k : K) : Prop := match lo with | none => True | some l => kle l k = true
